@@ -110,24 +110,25 @@ func leakKey(l string) string { return l }
 // Writer reference model (C17; reused by every check that drives a Writer).
 
 type wModel struct {
-	j         *judge
-	wi        int
-	ws        *plan.WScript
-	wo        *WOut
-	opts      plan.WOpts
-	optsKnown bool
-	phase     string // new open closed
-	failed    bool   // a call of this frame returned an error
-	sink      int
-	start     int // sink length when the frame started
-	accepted  []byte
-	offered   []byte
-	locked    bool // a data call happened in this frame
-	flushed   bool
-	usedRF    bool
-	dataCalls int
-	inputLen  int
-	frames    int
+	j          *judge
+	wi         int
+	ws         *plan.WScript
+	wo         *WOut
+	opts       plan.WOpts
+	optsKnown  bool
+	phase      string // new open closed
+	failed     bool   // a call of this frame returned an error
+	sink       int
+	start      int // sink length when the frame started
+	accepted   []byte
+	offered    []byte
+	locked     bool // a data call happened in this frame
+	flushed    bool
+	usedRF     bool
+	rfThenMore bool
+	dataCalls  int
+	inputLen   int
+	frames     int
 }
 
 func optsValid(o plan.WOpts) bool {
@@ -230,7 +231,7 @@ func (m *wModel) checkOptions(opi int, f *ref.Frame) {
 	}
 }
 
-func (m *wModel) usedRFShort() bool { return false }
+func (m *wModel) usedRFShort() bool { return m.rfThenMore }
 
 func refErrKey(f *ref.Frame) string {
 	e := f.Err
@@ -275,7 +276,12 @@ func (m *wModel) checkPrefix(opi int, what string) {
 	if m.start > len(sink) {
 		return
 	}
-	if len(sink) == m.start {
+	if fa := m.wo.Sinks[m.sink].FaultAt; fa >= 0 && fa <= len(sink) {
+		// Only what reached the sink before the first injected fault is
+		// judged; what a Writer appends after a reported failure is not.
+		sink = sink[:fa]
+	}
+	if len(sink) <= m.start {
 		return // nothing reached the sink
 	}
 	f := ref.Parse(sink[m.start:], ref.ParseOpt{Prefix: true})
@@ -324,11 +330,27 @@ func (j *judge) runWriterModel(wi int, strictFaultFree bool) {
 		}
 		grew := sinkBefore >= 0 && r.SinkLen > sinkBefore
 		justified := m.failed || m.faultFired() || m.phase == "closed"
+		if seq && r.Sink == m.sink && op.Op != "reset" && op.Op != "renew" {
+			// C15: on a sequential Writer the very call that hit the fault returns it
+			prevCalls := 0
+			if opi > 0 && wo.Ops[opi-1].Sink == r.Sink {
+				prevCalls = wo.Ops[opi-1].SinkCalls
+			} else if opi > 0 {
+				prevCalls = -1
+			}
+			s := wo.Sinks[r.Sink]
+			if prevCalls >= 0 && s.FaultAt >= 0 && s.FaultCall > prevCalls && s.FaultCall <= r.SinkCalls && !r.Err.Injected {
+				j.add("fault-swallowed", "seq-"+op.Op, "W%d op %d: sink call %d failed during this %s on a sequential Writer, which returned %s", wi, opi, s.FaultCall, op.Op, errStr(r.Err))
+			}
+		}
 		switch op.Op {
 		case "write", "readfrom":
 			asked := r.Asked
-			if op.Op == "readfrom" && m.dataCalls > 0 {
-				justified = true // mixed use may be refused
+			if op.Op == "readfrom" && m.phase != "new" {
+				justified = true // ReadFrom on a frame already started may be refused
+			}
+			if m.usedRF && m.dataCalls > 0 {
+				m.rfThenMore = true // ReadFrom ended its block where its source ended
 			}
 			if m.phase == "closed" {
 				if r.Err.Nil && asked > 0 || r.N != 0 {
@@ -430,7 +452,7 @@ func (j *judge) runWriterModel(wi int, strictFaultFree bool) {
 				m.checkPrefix(opi, "close after failure")
 			}
 			m.phase = "closed"
-		case "reset":
+		case "reset", "renew":
 			if m.phase == "open" && !m.failed && !m.faultFired() {
 				m.checkPrefix(opi, "abandoned frame")
 			}
@@ -439,7 +461,7 @@ func (j *judge) runWriterModel(wi int, strictFaultFree bool) {
 			m.phase = "new"
 			m.failed = !applyOK && false
 			m.accepted, m.offered = nil, nil
-			m.locked, m.flushed, m.usedRF, m.dataCalls = false, false, false, 0
+			m.locked, m.flushed, m.usedRF, m.dataCalls, m.rfThenMore = false, false, false, 0, false
 			if !applyOK {
 				// the initial invalid Apply poisoned nothing that survives Reset
 				m.optsKnown = false
@@ -516,6 +538,7 @@ type streamVerdict struct {
 	f       *ref.Frame // non-strict parse
 	valid   bool       // complete frame accepted
 	trunc   bool       // ends inside a frame
+	empty   bool       // no frame at all
 	content []byte     // decoded content up to the failure point
 }
 
@@ -524,6 +547,11 @@ func verdictOf(stored []byte) streamVerdict {
 	v := streamVerdict{f: f, content: f.Content}
 	v.valid = f.Err == nil && f.Complete
 	v.trunc = errors.Is(f.Err, ref.ErrTruncated)
+	if f.Err == ref.ErrNoFrame {
+		// nothing but (possibly) skippable frames: an empty stream, which
+		// ends cleanly with no content
+		v.valid, v.empty = true, true
+	}
 	return v
 }
 
@@ -605,6 +633,11 @@ func (j *judge) judgeReaderBasic(ri int) {
 			switch {
 			case srcFault:
 				j.add("fault-swallowed", "source-"+op.Op, "R%d op %d: the source failed (at offset %d) but %s completed cleanly", ri, opi, src.FaultPos, op.Op)
+			case !cv.valid && cv.f.Legacy && !cv.trunc:
+				// C05 is about the integrity fields of current-format
+				// frames; legacy frames have none. Only truncation (C06)
+				// is judged for them.
+				j.out.Probes.Add("out.of.scope", 1)
 			case !cv.valid:
 				key := "accepted-invalid"
 				if cv.trunc {
@@ -613,7 +646,7 @@ func (j *judge) judgeReaderBasic(ri int) {
 					key = "accepted-invalid:" + refErrKey(cv.f)
 				}
 				j.add("clean-end-unsound", key, "R%d op %d: %s completed cleanly after consuming %d bytes that the reference rejects (field %s: %v)", ri, opi, op.Op, cons, cv.f.ErrField, cv.f.Err)
-			case cv.f.Consumed != cons && !cv.f.Legacy:
+			case cv.f.Consumed != cons && !cv.f.Legacy && !cv.empty:
 				j.add("clean-end-unsound", "consumed-mismatch", "R%d op %d: consumed %d bytes, the frame ends at %d", ri, opi, cons, cv.f.Consumed)
 			case !bytes.Equal(D, cv.content):
 				j.add("clean-end-unsound", "content-"+contentKey(D, cv.content), "R%d op %d: clean end with %d bytes delivered, reference yields %d: %s", ri, opi, len(D), len(cv.content), diffAt(D, cv.content))
@@ -623,7 +656,12 @@ func (j *judge) judgeReaderBasic(ri int) {
 		}
 		if !clean && !early {
 			j.out.Probes.Add("rejected", 1)
-			if v.valid && !srcFault && !sinkFault && !outOfScope {
+			// C02/C16: only streams the harness did not tamper with must decode;
+			// for mutated ones the permissive reference may accept what the
+			// Reader legitimately refuses (C05 is one-directional).
+			st := &rs.Srcs[r.Src].Stored
+			pristine := len(st.Mut) == 0 && st.Cut == 0 && (st.Base == "sink" || st.Base == "lz4w" || st.Base == "refenc" || st.Base == "hostile" && st.Tail2 != nil)
+			if v.valid && pristine && !v.empty && !srcFault && !sinkFault && !outOfScope && !v.f.FollowedByFrame {
 				j.add("valid-rejected", op.Op+":"+r.Err.Class(), "R%d op %d: a valid stream read without faults ended with %s after %d of %d bytes", ri, opi, errStr(r.Err), len(D), len(v.content))
 			}
 			if op.Op == "drain" && r.Err.EOF && !r.Err.IsEOF && v.trunc {
@@ -671,14 +709,20 @@ func Judge(p *plan.Plan, out *Outcome) []Violation {
 	}
 	for ri := range p.Readers {
 		if out.R[ri].Finished {
-			j.judgeReaderBasic(ri)
+			if p.Kind == "lifecycleR" {
+				j.judgeReaderLifecycle(ri)
+			} else {
+				j.judgeReaderBasic(ri)
+			}
 		}
 	}
+	j.judgeTwin()
+	j.judgeSame()
+	j.judgeEquiv()
+	for ci := range p.CRs {
+		j.judgeCR(ci)
+	}
 	switch p.Kind {
-	case "determinism":
-		j.judgeDeterminism()
-	case "cr":
-		j.judgeCR()
 	case "hostile":
 		j.judgeHostile()
 	case "dependent":
@@ -686,8 +730,3 @@ func Judge(p *plan.Plan, out *Outcome) []Violation {
 	}
 	return j.vs
 }
-
-func (j *judge) judgeDeterminism() {}
-func (j *judge) judgeCR()          {}
-func (j *judge) judgeHostile()     {}
-func (j *judge) judgeDependent()   {}
